@@ -671,6 +671,118 @@ func c13DCFree(r *Rng, tier string, o *Out) {
 		c13Mats(k, n, proj, n, k, basis), c13Out(rec, setErr))
 }
 
+// c13Balanced: records that hit exact-zero intermediate values of AnalyzeData (ptm == 0, sum == 0, rms == 0,
+// peak == ptm), mostly on SIGNED channels with projectors loaded: non-zero samples whose pre-trigger sum and/or
+// post-trigger sum cancel exactly, the degenerate neighbours (only one of the two sums zero), all-zero records
+// (signed and unsigned), constant records, a peak exactly at the baseline.  Any shortcut keyed on such a zero must
+// still give projectors x record and the residual of the definition.
+func c13Balanced(r *Rng, tier string, o *Out) {
+	npre := r.Pick(3, 4, 5, 8, r.Range(3, 60))
+	npost := r.Pick(1, 2, 4, 7, r.Range(1, 80))
+	n := npre + npost
+	signed := r.Chance(85)
+	variant := r.Intn(8)
+	if !signed && variant < 3 {
+		variant = r.Pick(3, 4, 5, 6, 7) // cancellation needs negative values
+	}
+	v := make([]int, n)
+	fill := func(from, to int, zeroSum bool) { // random small values; optionally the last one cancels the others
+		ln := to - from
+		amp := r.Pick(1, 5, 300, 30000)
+		if amp*ln > 32000 {
+			amp = 32000 / ln
+		}
+		if amp < 1 {
+			amp = 1
+		}
+		sum := 0
+		for i := from; i < to; i++ {
+			v[i] = r.Range(-amp, amp)
+			if !signed && v[i] < 0 {
+				v[i] = -v[i]
+			}
+			sum += v[i]
+		}
+		if zeroSum {
+			sum -= v[to-1]
+			v[to-1] = -sum
+		} else if sum == 0 {
+			v[from]++
+		}
+	}
+	name := ""
+	switch variant {
+	case 0, 1: // both sums exactly zero, record not zero
+		name = "balanced"
+		fill(0, npre, true)
+		fill(npre, n, true)
+		if npost == 1 && npre > 1 { // a single post-trigger sample must itself be 0: make the pre-trigger part non-trivial
+			v[0], v[1] = v[0]+9, v[1]-9
+		}
+	case 2: // only one of the two sums zero
+		if r.Bool() {
+			name = "pre-balanced"
+			fill(0, npre, true)
+			fill(npre, n, false)
+		} else {
+			name = "post-balanced"
+			fill(0, npre, false)
+			fill(npre, n, true)
+		}
+	case 3: // all-zero record
+		name = "all-zero"
+	case 4: // zero baseline, flat zero pulse after a balanced pre-trigger: ptm == 0, sum == 0, rms == 0
+		name = "zero-post"
+		if signed {
+			fill(0, npre, true)
+		}
+	case 5: // peak exactly at the (integer) baseline: post-trigger maximum == pre-trigger mean
+		name = "peak-at-baseline"
+		b := r.Range(-200, 200)
+		if !signed {
+			b = r.Range(0, 60000)
+		}
+		for i := 0; i < npre; i++ {
+			v[i] = b
+		}
+		for i := npre; i < n; i++ {
+			v[i] = b - r.Range(0, 50)
+			if !signed && v[i] < 0 {
+				v[i] = 0
+			}
+		}
+		v[npre+r.Intn(npost)] = b
+	case 6: // constant record: rms == 0, peak == 0, delta == 0
+		name = "constant"
+		c := r.Pick(0, 1, -1, 7, -32768, 32767)
+		if !signed {
+			c = r.Pick(0, 1, 65535, 40000)
+		}
+		for i := range v {
+			v[i] = c
+		}
+	default: // mean zero over the whole record but neither part balanced
+		name = "whole-balanced"
+		fill(0, n, true)
+	}
+	data := make([]dastard.RawType, n)
+	for i, x := range v {
+		data[i] = dastard.RawType(((x % 65536) + 65536) % 65536)
+	}
+	k := r.Range(1, 8)
+	var proj, basis []float64
+	pb := "pb 0"
+	prows, pcols, brows, bcols := 0, 0, 0, 0
+	if r.Chance(90) {
+		proj, basis = c13Matrices(r, k, n)
+		prows, pcols, brows, bcols = k, n, n, k
+		pb = c13Mats(k, n, proj, n, k, basis)
+	}
+	in := append([]dastard.RawType{}, data...)
+	rec, setErr := dastard.VerifAnalyze(npre, n, signed, in, prows, pcols, proj, brows, bcols, basis)
+	o.Case("src direct-zero-%s npre %d cfgnpre %d nsamp %d signed %d data %s %s %s", name, npre, npre, n, b2i(signed), ints(data), pb, c13Out(rec, setErr))
+}
+
 func genC13(r *Rng, tier string, o *Out) {
 	c13Fixed(o)
 	n := 520
@@ -678,7 +790,9 @@ func genC13(r *Rng, tier string, o *Out) {
 		n = 2500
 	}
 	for o.n < n {
-		if r.Chance(12) {
+		if r.Chance(10) {
+			c13Balanced(r, tier, o)
+		} else if r.Chance(12) {
 			c13DCFree(r, tier, o)
 		} else if r.Chance(2) {
 			c13PipeEMT(r, tier, o)
